@@ -19,7 +19,7 @@ NAME_CLASSES = {
     "name:cjk": ["機能", "特征A", "기능"],
     "name:astral": ["rocket\U0001F680", "\U0001D4D0math"],
     "name:combining": ["éclair", "ǟ"],
-    "name:dquote": ['a"b', '"quoted"', '"'],
+    "name:dquote": ['a"b', '"quoted"', '"', '"Wi-Fi"', '"max speed"', '""6 GHz""', 'say "hi"', '"'],
     "name:squote": ["a'b", "single'", "it's"],  # a leading ' would make the term a string literal in the AST convention
     "name:backslash": ["a\\b", "\\n-literal", "trailing\\"],
     "name:xml-special": ["a<b&c", "x>y", "&amp;", "<tag/>"],
